@@ -181,6 +181,17 @@ func scenario(r *rand.Rand, o *hout.Out, idx int, store *memory.Storage, startSe
 		time.Sleep(1200 * time.Millisecond) // let the 1 s heartbeat timer fire among the sends
 	}
 	wg.Wait()
+	// everything the senders handed over must come out of the outgoing channel; give a lagging writer (and a loaded
+	// machine) time to drain it
+	for dl := time.Now().Add(3 * time.Second); time.Now().Before(dl); {
+		gmu.Lock()
+		n := len(got)
+		gmu.Unlock()
+		if n >= threads*per {
+			break
+		}
+		time.Sleep(2 * time.Millisecond)
+	}
 	time.Sleep(20 * time.Millisecond)
 	_ = s.Context()
 	close(done)
